@@ -12,6 +12,13 @@ import threading
 from .runner import HarnessError
 
 
+_PROXIES = {}
+
+
+def _lookup_proxy(key):
+    return _PROXIES[key]
+
+
 class SchedDict:
     def __init__(self):
         self._d = {}
@@ -74,6 +81,10 @@ class SchedDict:
 
     def __copy__(self):
         return self
+
+    def __reduce__(self):
+        _PROXIES[id(self)] = self
+        return (_lookup_proxy, (id(self),))
 
 
 class _Workers:
